@@ -176,7 +176,8 @@ class Facts:
                                    {f.path: ([f.locals[i].get("t") for i in range(1, f.argc + 1)], f.locals[0]["t"], f.kind)
                                     for f in self.fn_list if f.kind != "const"},
                                    {p: (a.get("kind"), [x["name"] for x in (a.get("fields") if "fields" in a else a.get("variants", []))])
-                                    for p, a in self.adts.items() if a.get("file")})
+                                    for p, a in self.adts.items() if a.get("file")},
+                                   {p: {"v": c.get("v"), "ty": c.get("ty")} for p, c in self.consts.items() if "v" in c})
             if amap:
                 texts = {k: (canon.apply_aliases_text(v, amap) if v is not None else None) for k, v in texts.items()}
                 self._parse(texts)
